@@ -40,6 +40,7 @@ def run(tier):
                     "OpenAPI requirement %s fails for %s %s (%s): served for credentials %s" % (req, o["method"], o["path"], o["spelling"], bad),
                     {"observation": o, "requirement": req})
     grpc_leg(c, sc)
+    restore_leg(c, sc)
     n_dec = sum(len(o["d"]) for o in obs)
     reached = [o for o in obs if any(o["tokstate"][t] == "valid" and d == "handled" for t, d in o["d"].items())]
     c.count(n_dec, [{"p": o["path"], "m": o["method"]} for o in reached])
@@ -73,6 +74,30 @@ def run(tier):
              "ClusterNeedsClusterToken, ClusterTokenPasses on every (type, carrier, token, cluster token); non-trivial = groups that reach a handler with a valid token",
         exhaustive=True,
         checker_cmd="tools/vcheck C16 --tier %s" % tier)
+
+
+def restore_leg(c, sc):
+    """an expired token is no token - also on a node that got the token out of a snapshot: a real login (token life time
+    3 s) on a single-member node, compaction while the token is valid, a new process on the same directory, the token
+    presented after its life time"""
+    d = os.path.join(sc, "restore")
+    env = {"RNVERIF_DATA_DIR": d}
+    res = vlib.harness(["authz", "c16-restore-prepare"], timeout=300, env=env)
+    t = next((r for r in res if r.get("kind") == "token"), None)
+    if not t or not t.get("works") or t.get("compact") != "ok":
+        raise ToolError("restore leg: login / compaction did not work: %s" % t)
+    res = vlib.harness(["authz", "c16-restore-check", t["token"]], timeout=300, env=env)
+    r = next((x for x in res if x.get("kind") == "restored"), None)
+    if not r:
+        raise ToolError("restore leg: the restarted node gave no answer")
+    c.count(1, [{"restore": "expired token after snapshot restore"}])
+    c.traces(1)
+    c.cov["restore_leg_decision"] = r["d"]
+    if r["d"].get("decision") != "forbidden":
+        c.violation("C16:NoDataWithoutToken@expired_token_after_snapshot_restore",
+                    "a token whose life time (3 s) had passed was accepted by a node restarted from a snapshot taken while the "
+                    "token was valid: GET /nacos/v1/cs/configs answered %s" % json.dumps(r["d"]),
+                    {"decision": r["d"], "token_life_time_s": 3})
 
 
 def grpc_leg(c, sc):
